@@ -103,7 +103,14 @@ func (f *c18Filler) fail(format string, a ...any) {
 
 // c18New instantiates the root type of the shape; the result is addressable.
 func c18New(t reflect.Type, s c18Shape) (reflect.Value, *c18Filler) {
+	return c18NewFrom(t, s, 0)
+}
+
+// c18NewFrom: like c18New with the nesting depth counted from depth0 (negative: the widths the filler
+// gives near the root - two or three elements per slice - reach that much further down)
+func c18NewFrom(t reflect.Type, s c18Shape, depth0 int) (reflect.Value, *c18Filler) {
 	f := newFiller(s)
+	f.depth = depth0
 	v := reflect.New(t).Elem()
 	f.fill(v, s.Chain, 1)
 	return v, f
